@@ -112,7 +112,9 @@ TEXTS = {
                    "evidence, not proof.",
         design_ref="§4 C13",
         level_note="The fault extension 'read error in mid-stream must not silently drop trees' of DESIGN §4 is not part of this check (the statement quantifies over well-formed inputs). "
-                   "Inner node names are kept unique within a tree. The input dimension is sampled. go1.26.8 runtime.",
+                   "Inner node names are kept unique within a tree. One tree in eight is written from one of its tips (root node with one neighbour); for such trees the hop through a "
+                   "translate table is a recorded finding (known_findings.jsonl, DESIGN §12.3): the check prints KNOWN-FINDING for its two classes and reports everything else. "
+                   "The input dimension is sampled. go1.26.8 runtime.",
         technique="deterministic simulation: simulated chunked streams + scheduled reader goroutine over conversion chains, oracle = reference model of the source trees"),
     "C02": dict(
         level_text="Fault enumeration on simulated byte streams: for every document of a small corpus covering the five formats, truncation after EVERY byte offset x {EOF, read error} x "
